@@ -31,6 +31,7 @@ static int contract(const char *name, scan_fn f, unsigned w, unsigned len, uint6
         if (idx < w || idx > len) why = "index out of range";
         else if (idx < len && ((ret & mask) != (trig & mask) || ret != H[idx])) why = "early stop without masked match / wrong hash";
         else if (idx >= len && ret != (len > w ? H[len - 1] : h0)) why = "hash after the last byte wrong";
+        if (!why && idx >= len && len > w && (ret & mask) == trig) why = "ran to the end although the last position matched";
         for (unsigned r = w; !why && r < idx && r < len; r++)
                 if ((H[r] & mask) == trig) why = "skipped a hit";
         if (why) {
